@@ -223,6 +223,11 @@ pub fn decode(buf: &[u8]) -> Verdict {
     if n >= 1 && buf[0] & 0xc0 != 0 {
         causes.push(Cause::NotStun);
     }
+    if n >= 4 && buf[3] & 3 != 0 && !causes.contains(&Cause::NotStun) {
+        // RFC 8489 s5 names the two low bits of the length field (always zero, attributes being padded)
+        // as a way to tell STUN from other protocols: a decoder may call such a buffer "not STUN"
+        causes.push(Cause::NotStun);
+    }
     if n < 20 {
         // a short buffer can already show that it is not STUN: a cookie byte that is present and wrong
         // (both defects are then present; the property does not rank coexisting causes)
@@ -336,6 +341,18 @@ pub fn integrity_status(buf: &[u8], view: &RefView, creds: &RefCreds) -> Vec<(us
         }
     }
     out
+}
+
+/// May validation answer `Ok(alg)` (alg = None: `Ok` of whatever algorithm) for this message?
+/// Yes iff some *correct* integrity attribute (of that algorithm; exposed or hidden) lies after every
+/// *wrong exposed* one: its HMAC covers everything before it, the wrong MAC included, so a peer must
+/// have built the message that way.  A correct MAC that is *followed* by a wrong exposed one vouches
+/// for nothing after itself — that is byte for byte what tampering with a correctly sealed message
+/// produces, and must be refused.  Wrong attributes hidden behind the first integrity attribute are
+/// unauthenticated trailing data and do not count.
+pub fn ok_verdict_acceptable(status: &[(usize, u16, bool)], exposed: &[usize], alg: Option<u16>) -> bool {
+    let last_wrong_exposed = status.iter().filter(|s| !s.2 && exposed.contains(&s.0)).map(|s| s.0).max();
+    status.iter().any(|s| s.2 && alg.map_or(true, |a| a == s.1) && last_wrong_exposed.map_or(true, |w| s.0 > w))
 }
 
 // ------------------------------------------------------------------------------------------------
